@@ -641,6 +641,18 @@ func persistRunKill(ctx *Ctx, in persistIn, cal *persistKillCal) (persistObs, st
 	case obs.Started == obs.Done+1:
 		inflight = "(Some " + persistCBop(in.Ops[obs.Done]) + ")"
 		tags = append(tags, "kill-inflight", "kill-inflight-"+in.Ops[obs.Done].Op)
+		if o := in.Ops[obs.Done]; o.Op == "save" {
+			// descriptive only: is the interrupted save visible to the fresh process?
+			for i, l := range loads {
+				if l.K == o.K && l.Id == o.Id && i < len(obs.Readback) {
+					if obs.Readback[i].R == "found" && persistCVal(o.K, obs.Readback[i].V, false) == persistCVal(o.K, o.V, true) {
+						tags = append(tags, "kill-inflight-save-visible")
+					} else {
+						tags = append(tags, "kill-inflight-save-not-visible")
+					}
+				}
+			}
+		}
 	case obs.Started == obs.Done:
 		if obs.Done == len(in.Ops) {
 			tags = append(tags, "kill-after-end")
